@@ -594,6 +594,11 @@ func (g *Gen) alter() string {
 		"DROP PROJECTION p",
 		"REPLACE PARTITION 1 FROM t2",
 		"MOVE PARTITION 1 TO TABLE t2",
+		// statistics, with and without arguments of the type; parametrised index and codec types
+		"ADD STATISTICS c TYPE tdigest", "ADD STATISTICS IF NOT EXISTS a, b TYPE countmin(5), uniq", "MODIFY STATISTICS a TYPE minmax(1, 'x')", "DROP STATISTICS a, b", "CLEAR STATISTICS a",
+		"MATERIALIZE STATISTICS a", "ADD INDEX i (a, b) TYPE bloom_filter(0.01) GRANULARITY 1", "ADD INDEX j f(a) TYPE set(100)", "MODIFY COLUMN c CODEC(ZSTD(3), Delta(4))", "MODIFY COLUMN c REMOVE COMMENT",
+		"MODIFY COLUMN c TTL d + INTERVAL 1 DAY", "ADD COLUMN n Nested(x Int8, y String) FIRST", "MODIFY QUERY SELECT 1", "MODIFY COMMENT 'c'", "RESET SETTING a, b", "FETCH PARTITION 1 FROM '/p'",
+		"ATTACH PART 'p'", "DROP DETACHED PART 'p'", "UNFREEZE WITH NAME 'n'", "APPLY DELETED MASK", "MODIFY SAMPLE BY a", "REMOVE SAMPLE BY", "REMOVE TTL", "MATERIALIZE TTL", "MATERIALIZE COLUMN c", "MATERIALIZE PROJECTION p",
 	}
 	n := 1 + g.r.Intn(2)
 	xs := make([]string, n)
